@@ -341,7 +341,9 @@ class Fn:
                 m = re.match(r'^let (mut )?(_\d+): (.*);$', s)
                 if m: self.locals[m.group(2)] = m.group(3); continue
                 m = re.match(r'^debug (\w+) => (.*);$', s)
-                if m: self.debug[m.group(1)] = m.group(2); continue
+                if m:
+                    if not (m.group(1) in self.debug and re.search(r'\b_1\b', self.debug[m.group(1)]) and not re.search(r'\b_1\b', m.group(2))): self.debug[m.group(1)] = m.group(2)   # a capture keeps its name when a local shadows it
+                    continue
             m = re.match(r'^bb(\d+)( \(cleanup\))?: \{$', s)
             if m:
                 cur = int(m.group(1)); self.blocks[cur] = []
@@ -471,7 +473,7 @@ class Mir:
         if self.enums is not None: return self.enums
         enums = {'Option': ['None', 'Some'], 'Result': ['Ok', 'Err'], 'ControlFlow': ['Continue', 'Break'],
                  'Ordering': ['Less', 'Equal', 'Greater'], 'Bound': ['Included', 'Excluded', 'Unbounded'],
-                 'TryRecvError': ['Empty', 'Disconnected'], 'Cow': ['Borrowed', 'Owned']}
+                 'TryRecvError': ['Empty', 'Disconnected'], 'RecvTimeoutError': ['Timeout', 'Disconnected'], 'Cow': ['Borrowed', 'Owned']}
         for root, dirs, files in os.walk(self.srcroot):
             if '/target' in root or '/.git' in root: continue
             for fnm in files:
